@@ -582,10 +582,114 @@ def thread_inflight_cases(rep):
     return n
 
 
+def thread_call_during_call_cases(rep):
+    """A plain call through the proxy is being EXECUTED on the owner's thread (its body waits on a gate) when the caller's thread
+    makes further calls through the same proxy -- plain ones and a coroutine call; then the gate opens.  Every call must be executed,
+    on the owner's thread, exactly once and in the order it was made; afterwards a further call still works (forced ordering, real
+    threads; covers queues / batches of calls that are being drained while new calls arrive)."""
+    import threading
+
+    from bellows.thread import EventLoopThread, ThreadsafeProxy
+
+    n = 0
+    for later in (("plain",), ("plain", "plain"), ("coro",), ("plain", "coro", "plain"), ("raising", "plain")):
+        n += 1
+        msgs = []
+
+        class Target:
+            def __init__(self):
+                self.log = []
+                self.gate = threading.Event()
+                self.entered = threading.Event()
+
+            def blocking(self, ident):
+                self.log.append((ident, threading.get_ident()))
+                self.entered.set()
+                self.gate.wait(20)
+
+            def plain(self, ident):
+                self.log.append((ident, threading.get_ident()))
+
+            def raising(self, ident):
+                self.log.append((ident, threading.get_ident()))
+                raise ValueError("plain call fails")
+
+            async def coro(self, ident):
+                self.log.append((ident, threading.get_ident()))
+                return ident
+
+        async def scenario():
+            th = EventLoopThread()
+            await th.start()
+            owner_ident = {}
+            th.loop.call_soon_threadsafe(lambda: owner_ident.setdefault("id", threading.get_ident()))
+            th.loop.set_exception_handler(lambda loop, ctx: None)
+            target = Target()
+            proxy = ThreadsafeProxy(target, th.loop)
+            proxy.blocking("first")
+            for _ in range(4000):
+                if target.entered.is_set():
+                    break
+                await asyncio.sleep(0.001)
+            else:
+                msgs.append("harness: the first call did not start on the owner's thread")
+                return
+            waits = []
+            for i, kind in enumerate(later):
+                r = getattr(proxy, kind)(f"{kind}-{i}")
+                if kind == "coro":
+                    waits.append(asyncio.ensure_future(r))
+            target.gate.set()
+            r = proxy.coro("last")
+            try:
+                await asyncio.wait_for(r, 8)
+            except asyncio.TimeoutError:
+                msgs.append(f"calls {list(later)} made while an earlier plain call was executing: a coroutine call made afterwards never completed")
+            for w in waits:
+                try:
+                    await asyncio.wait_for(w, 8)
+                except asyncio.TimeoutError:
+                    msgs.append(f"calls {list(later)} made while an earlier plain call was executing: the coroutine call among them never completed")
+            want = ["first"] + [f"{k}-{i}" for i, k in enumerate(later)] + ["last"]
+            got = [x for x, _ in target.log]
+            # every call exactly once; queued plain calls in the order they were made (a coroutine call starts through a task, its
+            # place among the plain calls is not fixed by the property)
+            plain = lambda seq: [x for x in seq if not x.startswith("coro") and x != "last"]  # noqa: E731
+            if (sorted(got) != sorted(want) or plain(got) != plain(want)) and not msgs:
+                msgs.append(f"calls {list(later)} made while an earlier plain call was executing: executed {got}, expected {want} (each once, plain calls in order)")
+            if any(tid != owner_ident.get("id") for _, tid in target.log):
+                msgs.append(f"calls {list(later)} made while an earlier plain call was executing: a call ran on a thread other than the owner's")
+            th.force_stop()
+            try:
+                await asyncio.wait_for(asyncio.shield(th.thread_complete), 8)
+            except asyncio.TimeoutError:
+                pass
+
+        loop = asyncio.new_event_loop()
+        try:
+            loop.run_until_complete(asyncio.wait_for(scenario(), 60))
+        except Exception as e:  # noqa
+            msgs.append(f"calls {list(later)} made while an earlier plain call was executing: scenario raised {type(e).__name__}: {e}")
+        finally:
+            try:
+                loop.run_until_complete(asyncio.sleep(0))
+                loop.close()
+            except Exception:  # noqa
+                pass
+        for m in msgs:
+            if m.startswith("harness:"):
+                raise explore.InternalError(m)
+            rep.add_violation("C20|thread-call-during-call|" + m.split(": ", 1)[1][:60], "EventLoopThread owner, " + m, {"world": "c20", "kind": "thread-call-during-call", "later": list(later)})
+        if msgs and n >= 2:
+            break
+    return n
+
+
 def main(tier: str) -> int:
     rep = report.Report("C20", tier, "model_checking")
     n_thread = thread_lifecycle_cases(rep)
     n_thread += thread_inflight_cases(rep)
+    n_thread += thread_call_during_call_cases(rep)
     k = 4 if tier == "quick" else 6
     st = explore.dbdfs(("mc.checks.c20", "build"), param_list(tier), k, budget_s=(60 if tier == "quick" else 1200))
     st2 = explore.dbdfs(("mc.checks.c20", "build"), line_window_params(), 0)
